@@ -1302,6 +1302,11 @@ def find(prop, fo, seed):
     t0 = time.time()
     deadline = t0 + TOTAL_BUDGET_S
     function = (fo or {}).get("function") or ""
+    if prop == "C13":
+        # the b3sum unit's functions are `crate::...` too (another crate): dispatch on the property FIRST.
+        # Family: real b3sum (scratch build + appended driver) vs oracle/checkfile.py, see lib/search_b3sum.py
+        import search_b3sum
+        return search_b3sum.find(prop, fo or {}, seed, deadline)
     sp = refimpl_find(prop, fo or {}, seed, deadline)
     if sp is not None:
         sp["log"]["seconds"] = round(time.time() - t0, 1)
@@ -1359,6 +1364,9 @@ def find(prop, fo, seed):
 
 def rerun(failing_input):
     sc = failing_input["scenario"]
+    if str(sc.get("kind", "")).startswith("b3sum_"):
+        import search_b3sum
+        return search_b3sum.rerun(failing_input)
     if sc.get("kind") in ("refimpl", "vectors_case"):
         return refimpl_rerun(failing_input)
     feats = tuple(failing_input.get("features") or ())
@@ -1563,9 +1571,10 @@ if __name__ == "__main__":
     ap.add_argument("--variants", default="default,portable")
     ap.add_argument("--find", help="function path of a (pretend) failed obligation")
     ap.add_argument("--seed", type=int, default=0)
+    ap.add_argument("--prop", default="X", help="property id of the (pretend) obligation, e.g. C13 for the b3sum family")
     a = ap.parse_args()
     if a.find:
-        print(json.dumps(find("X", {"function": a.find}, a.seed), indent=1))
+        print(json.dumps(find(a.prop, {"function": a.find}, a.seed), indent=1, default=str))
     else:
         rep = selftest_families([f for f in a.families.split(",") if f] or None, tuple(a.variants.split(",")), a.seed)
         for r in rep:
